@@ -228,8 +228,9 @@ func (server *GripServer) BulkAdd(stream gripql.Edit_BulkAddServer) error {
 	var insertCount int32
 	var errorCount int32
 
-	elementStream := make(chan *gdbi.GraphElement, 100)
-	streamOpen := true
+	// no stream is open until an element names a graph that exists
+	var elementStream chan *gdbi.GraphElement
+	streamOpen := false
 	wg := &sync.WaitGroup{}
 
 	for {
